@@ -147,7 +147,7 @@ static const char *owner_name(int o)
     return o == XMPP_QUEUE_USER ? "u" : o == XMPP_QUEUE_STROPHE ? "l" : o == XMPP_QUEUE_SM_STROPHE ? "s" : "?";
 }
 
-/* q <len> <userlen> owner:written:wip:linked:hex,...  | sm h:hex,... */
+/* q <len> <userlen> owner:written:wip:linked:hex,...  | sm h:hex:owner,... */
 void hconn_dump_queue(hconn_t *h, FILE *out)
 {
     xmpp_send_queue_t *e, *prev = NULL;
@@ -171,6 +171,8 @@ void hconn_dump_queue(hconn_t *h, FILE *out)
     for (e = h->conn->sm_state->sm_queue.head; e; e = e->next) {
         fprintf(out, "%s%u:", first ? "" : ",", e->sm_h);
         hprint_hex(out, (unsigned char *)e->data, e->len);
+        /* the owner decides how the element behaves once it is handed back to the send queue */
+        fprintf(out, ":%s", owner_name(e->owner));
         first = 0;
     }
 }
